@@ -70,6 +70,10 @@ Flush == IsEv("flush") /\ IF ~H.open THEN Refused ELSE Ok(fs, disk, opens, close
 Close == (IsEv("close") \/ IsEv("withend")) /\ IF ~H.open THEN Refused ELSE Ok(With(fs, E.o, Closed), disk, opens, closes + 1)
 WithBegin == IsEv("withbegin") /\ Ok(fs, disk, opens, closes)
 Del == IsEv("del") /\ Ok(Without(fs, E.o), disk, opens, IF H.open THEN closes + 1 ELSE closes)
+(* the destructor closes an open stream and leaves the object closed; constructing it again in place opens anew *)
+Destruct == IsEv("destruct") /\ Ok(With(fs, E.o, Closed), disk, opens, IF H.open THEN closes + 1 ELSE closes)
+Construct == IsEv("construct") /\ ~H.open
+             /\ Ok(With(fs, E.o, Opened(E.a, E.b)), IF Truncates(E.b) THEN [disk EXCEPT ![E.a] = <<>>] ELSE disk, opens + 1, closes)
 PrintEv == IsEv("print") /\ IF ~H.open THEN Refused
          ELSE /\ E.r = Len(Text(E.a))
               /\ Ok(With(fs, E.o, [H EXCEPT !.pos = WritePos(H, C) + Len(Text(E.a))]), [disk EXCEPT ![H.path] = Overwrite(@, WritePos(H, @), Text(E.a))], opens, closes)
@@ -81,7 +85,7 @@ ScanEv == IsEv("scan") /\ IF ~H.open THEN Refused
              /\ LET np == IF r[2] <= Len(C) /\ C[r[2]] = 32 THEN r[2] ELSE r[2] - 1 IN      \* the blank after the digits is consumed
                 Ok(With(fs, E.o, [H EXCEPT !.pos = np, !.eof = (np = Len(C)) \/ H.eof]), disk, opens, closes)   \* looking for more white space hits the end
 
-Next == Reset \/ End \/ New \/ Open \/ Write \/ Read \/ Seek \/ Tell \/ Eof \/ Flush \/ Close \/ WithBegin \/ Del \/ PrintEv \/ ScanEv
+Next == Reset \/ End \/ New \/ Open \/ Write \/ Read \/ Seek \/ Tell \/ Eof \/ Flush \/ Close \/ WithBegin \/ Del \/ Destruct \/ Construct \/ PrintEv \/ ScanEv
 Spec == Init /\ [][Next]_vars
 Accepted == LET d == TLCGet("stats").diameter IN
             /\ PrintT(<<"TRACE_MATCHED", d - 1, Len(T)>>)
